@@ -46,12 +46,12 @@ type script struct {
 }
 
 type subResult struct {
-	seq               []payload
-	subCall, subRet   int64
-	unsubCall         int64
-	unsubRet          int64
-	didUnsub, didSub  bool
-	closedSeen        bool
+	seq              []payload
+	subCall, subRet  int64
+	unsubCall        int64
+	unsubRet         int64
+	didUnsub, didSub bool
+	closedSeen       bool
 }
 
 func runScript(sc script) (symptom, detail string, inconcl string, joinLeave bool) {
